@@ -27,3 +27,8 @@ _RELAY_TB = [
 ]
 for _p in ("C01", "C02", "C03", "C04", "C05", "C06", "C07", "C08", "C15", "C19"):
     PROPS[_p] = {"pkgs": [(".", "TestVerif_" + _p)], "trusted_base": _RELAY_TB, "assumptions": []}
+
+PROPS["C20"] = {"pkgs": [(".", "TestVerif_C20")],
+                "trusted_base": ["the socket layer (transport.Net) and the random source are scripted by the harness; the model takes "
+                                 "'bind refuses a bound port' as the environment's behaviour, which the harness also tries on real loopback TCP sockets"],
+                "assumptions": ["1 <= MinPort <= MaxPort <= 65535 as the property states"]}
